@@ -117,6 +117,27 @@ pub fn suite_c15(ctx: &mut Ctx) {
             ctx.call(ty, f, if i % 50 == 0 { "nt" } else { "m" }, &[a]);
         }
     }
+    // worst cases for argument reduction: posits that happen to lie extremely close to a multiple of pi/2
+    // (all 250 000 multiples inside the documented range are scanned; selection only, in f64)
+    {
+        let mut cand: Vec<(f64, u64)> = Vec::new();
+        let mut k = 1u64;
+        while (k as f64) * std::f64::consts::FRAC_PI_2 < 393216.0 {
+            let v = (k as f64) * std::f64::consts::FRAC_PI_2;
+            let p = softposit::P32E2::from_f64(v);
+            let back = f64::from(p);
+            cand.push(((back - v).abs(), p.to_bits() as u64));
+            k += 1;
+        }
+        cand.sort_by(|a, b| a.0.partial_cmp(&b.0).unwrap());
+        let keep = ctx.q(2500, 40_000);
+        for &(_, p) in cand.iter().take(keep) {
+            for f in ["sin", "cos", "tan"] {
+                ctx.call(ty, f, "m", &[p]);
+                ctx.call(ty, f, "m", &[gen::neg(32, p)]);
+            }
+        }
+    }
     // two-argument functions
     let per2 = ctx.q(1500, 20_000);
     for f in ["hypot", "powf", "atan2"] {
